@@ -1,5 +1,16 @@
 /- C04 — property theorems only. -/
 import OdcGeo.Model.C04
+import Mathlib.Tactic.Linarith
 namespace OdcGeo.C04
+open OdcGeo.C17
+
+/-- `count` is the ceiling of `N / n`: the least `T` with `N ≤ T * n`. -/
+theorem count_is_ceil (N n : Int) (hn : 0 < n) : (count N n - 1) * n < N ∧ N ≤ count N n * n := by
+  unfold count ceilDiv
+  rw [if_pos hn]
+  have h1 := Int.emod_add_mul_ediv (N + n - 1) n
+  have h2 := Int.emod_nonneg (N + n - 1) (by omega : n ≠ 0)
+  have h3 := Int.emod_lt_of_pos (N + n - 1) hn
+  constructor <;> nlinarith
 
 end OdcGeo.C04
